@@ -43,6 +43,7 @@ CONFIGS = {
     'statectl_void0': ('vf::act0_void', 'void0', 'vf::sc_control', True, 2),
     'statectl_rot': ('vf::act_bool', 'bool', 'vf::scr_control', True, 2),
     'rmfirst': ('vf::act_bool', 'bool', 'vf::rf_control', True, 2),
+    'rot0':    ('vf::act_bool', 'bool', 'vf::rot0_control', True, 2),
 }
 ROF = {'mustif': (1, 101), 'mustif_bool': (1, 101)}
 
